@@ -426,7 +426,7 @@ pub fn run(ctx: &mut Ctx) {
     ctx.rule = "cases = (position, backend, payload): positions are every place where a value is inlined (value_to_string, SELECT value, \
 constant, ORDER BY FIELD list, IN list, LIKE ESCAPE, column DEFAULT, MySQL column/table COMMENT, MySQL ENUM label, Postgres CREATE/ALTER TYPE \
 labels, JSON, Postgres array element, UPDATE SET, INSERT VALUES, CASE THEN); payloads are all strings over {' \" \\ a % _ LF TAB 0x1A BS é 😀 (+NUL on MySQL)} \
-up to length L (exhaustive), every char class representative / all chars (thorough), random Unicode text, chars and byte strings. \
+up to length L (exhaustive), every char class representative / all chars (thorough), random Unicode text, chars and byte strings, and one byte string and one text of every length up to 1200 (quick) / 6000 (thorough). \
 Non-trivial = the payload contains a quote, backslash, wildcard, control or non-ASCII character (or is a non-empty byte string); distinct by (position, backend, payload)."
         .into();
     ctx.domain_restrictions.push("NUL is generated only for MySQL (Postgres and SQLite have no representation for it in SQL text)".into());
@@ -477,6 +477,26 @@ Non-trivial = the payload contains a quote, backslash, wildcard, control or non-
                 vec![(x >> 8) as u8, (x & 255) as u8]
             };
             Case { pos: [Pos::ValueToString, Pos::SelectVal, Pos::Default][(k % 3) as usize], dialect: d, payload: Payload::Bytes(b) }
+        },
+        &check,
+    );
+    // every length up to a bound (block-wise encoders, buffers): a byte string and a text with escape-relevant characters per length
+    let max_payload: u64 = ctx.tier.pick(1200, 6000);
+    ctx.run_indexed(
+        "lengths",
+        (max_payload + 1) * 3 * 2,
+        &|i| {
+            let d = DIALECTS[(i % 3) as usize];
+            let text = (i / 3) % 2 == 1;
+            let len = (i / 6) as usize;
+            let pos = [Pos::ValueToString, Pos::SelectVal, Pos::Default, Pos::InsertValue][len % 4];
+            let payload = if text {
+                const UNITS: [&str; 8] = ["a", "'", "\\", "é", "😀", "\n", "%", "\""];
+                Payload::Text((0..len).map(|k| UNITS[(k * 7 + len) % 8]).collect())
+            } else {
+                Payload::Bytes((0..len).map(|k| (k * 31 + len * 7) as u8).collect())
+            };
+            Case { pos, dialect: d, payload }
         },
         &check,
     );
